@@ -149,6 +149,19 @@ def run(r):
                              lambda c: f"(match load marsh_cfg {C.blist(c['bytes'])} with Ok (v, _) => 0 :: obs_pv {ft_of(c['bytes'])} v | Err e => [1; err_code e] end)",
                              modules=MODS, chunk=100, describe=lambda case, impl, model: {"component": "xdis.marsh.loads vs model (shared reader, marsh_cfg)",
                                                                                             "stream": case["bytes"][:200], "impl": impl[:100], "model": model[:300]})
+        # nesting: the host's marshal writes and reads containers nested 2000 deep; xdis.marsh recurses in Python (two to three frames a level)
+        for depth, kind in ((150, "tuple"), (150, "list"), (700, "tuple"), (700, "list")):
+            o = C.run_impl_op("marsh_nested", [{"depth": depth, "kind": kind}], modules=MODS)[0]
+            r.case(("nested", depth, kind), nontrivial=True)
+            r.count(f"nested-{depth}:" + str(o.get("dumps")) + "/" + str(o.get("loads")))
+            bad = [k for k in ("dumps", "loads") if o.get(k) != "ok"]
+            if not bad:
+                continue
+            if depth >= 700 and all(o.get(k) == "RecursionError" for k in bad) and r.is_known("D44"):
+                r.known_finding("D44", "containers nested about 500 deep or more: xdis.marsh.dumps / loads raise RecursionError under the default recursion limit; the host's marshal handles 2000 levels")
+                continue
+            r.violation({"component": "xdis.marsh on nested containers", "depth": depth, "kind": kind, "outcome": o,
+                         "why": "a value the host's marshal writes and reads is refused or changed by xdis.marsh"})
         # ill-formed streams through xdis.marsh.loads against the reader model (marsh_cfg): truncations, unknown codes, and negative sizes,
         # which its buffer reader refuses (a negative size would step backwards and re-read the same item for ever inside a container)
         import struct
